@@ -91,6 +91,14 @@ func resourceInfoToK8sObject(info *resource.Info, l logger.Logger, muteErrsAndWa
 					resObject.AdminNetworkPolicy.Spec.Priority = math.MinInt32
 				}
 			}
+			// a number that does not fit an int64 either is decoded as a float64 (and converted to 0)
+			if p, found, _ := unstructured.NestedFloat64(unstructuredObj.Object, "spec", "priority"); found &&
+				(p > math.MaxInt32 || p < math.MinInt32) {
+				resObject.AdminNetworkPolicy.Spec.Priority = math.MaxInt32
+				if p < 0 {
+					resObject.AdminNetworkPolicy.Spec.Priority = math.MinInt32
+				}
+			}
 		}
 		resObject.initDefaultNamespace()
 	} else {
